@@ -30,6 +30,7 @@ type OpOptions struct {
 	NodeRoot             bool // node(id:) as a client root field
 	RootTypename         bool
 	FragReuse            bool // one named fragment spread at two places
+	Wild                 bool // fragments on the type itself / on its interfaces / nested in each other (model correspondences only)
 	NullVars             bool // client variables explicitly set to null at nullable argument positions
 	TwinRoots            bool // one root field selected twice under two aliases with different selections below
 	UnevenIDs            bool // every member of an abstract type is selected, but `id` only in some of the fragments
@@ -301,7 +302,40 @@ func (g *opGen) directive() string {
 	return ""
 }
 
+// selFor: a selection set for type d. Under the Wild option the plain selection is sometimes wrapped into fragments
+// that say nothing new about the type — on the type itself, on an interface it implements, on the abstract type
+// itself, nested in each other — and fragments on interfaces are added next to the members of an abstract type.
 func (g *opGen) selFor(d *ast.Definition, depth int) string {
+	inner := g.selForPlain(d, depth)
+	if !g.opt.Wild || g.rng.Intn(3) != 0 {
+		return inner
+	}
+	g.feat["wild_fragments"] = true
+	var ifaces []string
+	if d.Kind == ast.Object {
+		ifaces = append(ifaces, d.Interfaces...)
+	}
+	switch k := g.rng.Intn(5); {
+	case k == 0:
+		return "... on " + d.Name + " { " + inner + " }"
+	case k == 1 && len(ifaces) > 0:
+		// only fields of the interface may stand directly in a fragment on it: keep the selection on the type itself inside
+		return "... on " + ifaces[g.rng.Intn(len(ifaces))] + " { ... on " + d.Name + " { " + inner + " } }"
+	case k == 2 && len(ifaces) > 0:
+		return inner + " ... on " + ifaces[g.rng.Intn(len(ifaces))] + " { id }"
+	case k == 3:
+		return "... on " + d.Name + " { ... on " + d.Name + " { " + inner + " } }"
+	default:
+		if d.Kind == ast.Union || d.Kind == ast.Interface {
+			if node := g.schema.Types["Node"]; node != nil && d.Name != "Node" {
+				return inner + " ... on Node { id }"
+			}
+		}
+		return "__typename ... on " + d.Name + " { " + inner + " }"
+	}
+}
+
+func (g *opGen) selForPlain(d *ast.Definition, depth int) string {
 	if d.Kind == ast.Union || (d.Kind == ast.Interface && g.rng.Intn(2) == 0) {
 		var parts []string
 		if g.opt.Typename && g.rng.Intn(2) == 0 {
